@@ -3,6 +3,7 @@ package main
 // Instruction-level translation.
 
 import (
+	"os"
 	"fmt"
 	"strings"
 	"go/constant"
@@ -46,6 +47,42 @@ func (a *Act) instr(st *State, b *ssa.BasicBlock, instr ssa.Instruction) {
 				tr.oblCount[base]++
 				loc, _ := a.srcLine(instr.Pos())
 				tr.obls = append(tr.obls, &Obligation{Name: fmt.Sprintf("%s#%d", base, tr.oblCount[base]), Kind: "assert", Fn: fname, Pos: loc, Src: aa.cl.text, Guard: st.reach, Goal: g})
+				// a cut: once checked here (the obligation above, same run) it is available downstream
+				if as := tr.assume(Implies(st.reach, g), "asserted (and checked) at «"+aa.src+"»: "+aa.cl.text); as != nil {
+					as.MinObl = len(tr.obls) + 1
+				}
+			}
+		}
+	}
+	if a.contract != nil && a.parent == nil && len(a.contract.tailrec) > 0 && instr.Pos().IsValid() {
+		for ord, ts := range a.contract.tailrec {
+			if len(ts.readsAt) == 0 {
+				continue
+			}
+			if _, isDbg := instr.(*ssa.DebugRef); isDbg {
+				continue
+			}
+			pp := tr.eng.fset.Position(instr.Pos())
+			_, src := a.srcLine(instr.Pos())
+			ns := normSrc(src)
+			if os.Getenv("GOVC_DBG") != "" && strings.Contains(ns, "exp, e") {
+				fmt.Fprintf(os.Stderr, "readsat candidate %q vs %q\n", ns, ts.readsAt[0].src)
+			}
+			for _, ra := range ts.readsAt {
+				if ra.src != ns || (ra.occ > 0 && a.occurrenceOf(pp.Filename, pp.Line, ns) != ra.occ) {
+					continue
+				}
+				key := fmt.Sprintf("readsat/%p/%d/%s/%d", a, ord, ra.src, pp.Line)
+				if !tr.atDone[key] {
+					tr.atDone[key] = true
+					if a.readsAt == nil {
+						a.readsAt = map[int][]readsAtSnap{}
+					}
+					a.readsAt[ord] = append(a.readsAt[ord], readsAtSnap{st: st.copy(), block: b})
+					if os.Getenv("GOVC_DBG") != "" {
+						fmt.Fprintf(os.Stderr, "readsat captured at %s block %d\n", pp, b.Index)
+					}
+				}
 			}
 		}
 	}
